@@ -462,7 +462,7 @@ func specHMACInit(a ipmi.AuthenticationAlgorithm, key []byte) int {
 
 //@ func RetrieveSupportedCipherSuites
 //@ props C12 C16 C18 C05
-//@ invariant 0 [C16.index-inv] getChannelCipherSuitesCmd.Req.ListIndex <= 64 && getChannelCipherSuitesCmd.Req.Channel == ipmi.ChannelPresentInterface
+//@ invariant 0 [C05+C16.index-inv] getChannelCipherSuitesCmd.Req.ListIndex <= 64 && getChannelCipherSuitesCmd.Req.Channel == ipmi.ChannelPresentInterface
 //@ invariant 0 [C16.full-so-far] getChannelCipherSuitesCmd.Req.ListIndex > 0 ==> len(getChannelCipherSuitesCmd.Rsp.CipherSuiteRecordsChunk) >= 16
 //@ decreases 0 65 - int(getChannelCipherSuitesCmd.Req.ListIndex)
 //@ at V2Sessionless).SendCommand assert [C16.next-after-full] getChannelCipherSuitesCmd.Req.ListIndex > 0 ==> len(getChannelCipherSuitesCmd.Rsp.CipherSuiteRecordsChunk) >= 16
